@@ -61,6 +61,10 @@ type Ctx struct {
 	Funcs   map[*ssa.Function]int // executed functions -> instruction count
 	fresh   int
 	lenInfo map[*sym.Term]lenMeta
+	dom     map[*sym.Term]*[4]uint64 // current value set of 8-bit variables (refined by single-variable PC atoms)
+	rel     map[*sym.Term]bool       // variable occurs in a multi-variable PC constraint
+	tvars   map[*sym.Term][]*sym.Term
+	DomDecided int // branch decisions settled by exhaustive evaluation over byte domains
 
 	// Notes collected by host-side code for reporting.
 	Notes []string
@@ -115,6 +119,174 @@ func (c *Ctx) addPC(t *sym.Term) {
 		}
 	}
 	c.S.Assert(t)
+	c.refine(t)
+}
+
+// byteVars lists the variables of t if they are all 8-bit (nil otherwise or when there are more than 3).
+func (c *Ctx) byteVars(t *sym.Term) []*sym.Term {
+	if v, ok := c.tvars[t]; ok {
+		return v
+	}
+	seen := map[*sym.Term]bool{}
+	var vs []*sym.Term
+	bad := false
+	var walk func(t *sym.Term)
+	walk = func(t *sym.Term) {
+		if bad || seen[t] {
+			return
+		}
+		seen[t] = true
+		if t.Op == sym.OpVar {
+			if t.W != 8 {
+				bad = true
+				return
+			}
+			vs = append(vs, t)
+			if len(vs) > 3 {
+				bad = true
+			}
+			return
+		}
+		for _, a := range t.Args {
+			walk(a)
+		}
+	}
+	walk(t)
+	if bad {
+		vs = nil
+	}
+	c.tvars[t] = vs
+	return vs
+}
+
+func (c *Ctx) domOf(v *sym.Term) *[4]uint64 {
+	if d, ok := c.dom[v]; ok {
+		return d
+	}
+	d := new([4]uint64)
+	if v.Dom != nil {
+		*d = *v.Dom
+	} else {
+		*d = [4]uint64{^uint64(0), ^uint64(0), ^uint64(0), ^uint64(0)}
+	}
+	c.dom[v] = d
+	return d
+}
+
+func domValues(d *[4]uint64) []uint64 {
+	var out []uint64
+	for x := uint64(0); x < 256; x++ {
+		if d[x>>6]&(1<<(x&63)) != 0 {
+			out = append(out, x)
+		}
+	}
+	return out
+}
+
+// domDecide settles a condition over at most three independent byte variables by
+// evaluating it on every combination of their current domains (<= 4096 combinations).
+// It returns (true side feasible, false side feasible, decided).
+func (c *Ctx) domDecide(cond *sym.Term) (ft, ff, ok bool) {
+	vs := c.byteVars(cond)
+	if len(vs) == 0 {
+		return false, false, false
+	}
+	doms := make([][]uint64, len(vs))
+	n := 1
+	for i, v := range vs {
+		if c.rel[v] {
+			return false, false, false
+		}
+		doms[i] = domValues(c.domOf(v))
+		n *= len(doms[i])
+		if n > 4096 {
+			return false, false, false
+		}
+	}
+	if n == 0 {
+		return false, false, false
+	}
+	m := map[string]uint64{}
+	idx := make([]int, len(vs))
+	for {
+		for i, v := range vs {
+			m[v.Name] = doms[i][idx[i]]
+		}
+		if sym.Eval(cond, m) == 1 {
+			ft = true
+		} else {
+			ff = true
+		}
+		if ft && ff {
+			return true, true, true
+		}
+		k := 0
+		for k < len(vs) {
+			idx[k]++
+			if idx[k] < len(doms[k]) {
+				break
+			}
+			idx[k] = 0
+			k++
+		}
+		if k == len(vs) {
+			break
+		}
+	}
+	return ft, ff, true
+}
+
+// refine narrows byte domains with a newly asserted constraint.
+func (c *Ctx) refine(t *sym.Term) {
+	vs := c.byteVars(t)
+	switch {
+	case len(vs) == 1 && !c.rel[vs[0]]:
+		v := vs[0]
+		d := c.domOf(v)
+		m := map[string]uint64{}
+		for _, x := range domValues(d) {
+			m[v.Name] = x
+			if sym.Eval(t, m) != 1 {
+				d[x>>6] &^= 1 << (x & 63)
+			}
+		}
+	case len(vs) > 1:
+		for _, v := range vs {
+			c.rel[v] = true
+		}
+	default:
+		// mixed or wide constraint: every byte variable in it becomes relational
+		seen := map[*sym.Term]bool{}
+		var walk func(t *sym.Term)
+		walk = func(t *sym.Term) {
+			if seen[t] {
+				return
+			}
+			seen[t] = true
+			if t.Op == sym.OpVar && t.W == 8 {
+				c.rel[t] = true
+			}
+			for _, a := range t.Args {
+				walk(a)
+			}
+		}
+		walk(t)
+	}
+}
+
+// Fork is free binary nondeterminism (no condition): both outcomes are explored.
+func (c *Ctx) Fork() bool {
+	if c.pos < len(c.prefix) {
+		d := c.prefix[c.pos]
+		c.pos++
+		c.trace = append(c.trace, d)
+		return d
+	}
+	c.pos++
+	alt := append(append([]bool(nil), c.trace...), false)
+	c.spawn = append(c.spawn, alt)
+	c.trace = append(c.trace, true)
+	return true
 }
 
 // Branch decides a symbolic condition on this path, forking if both sides are feasible.
@@ -142,6 +314,25 @@ func (c *Ctx) Branch(cond *sym.Term) bool {
 	}
 	c.pos++
 	c.Forks++
+	if ft, ff, ok := c.domDecide(cond); ok {
+		c.DomDecided++
+		switch {
+		case ft && ff:
+			alt := append(append([]bool(nil), c.trace...), false)
+			c.spawn = append(c.spawn, alt)
+			c.trace = append(c.trace, true)
+			c.addPC(cond)
+			return true
+		case ft:
+			c.trace = append(c.trace, true)
+			c.addPC(cond)
+			return true
+		default:
+			c.trace = append(c.trace, false)
+			c.addPC(neg)
+			return false
+		}
+	}
 	rt := c.S.Check(cond)
 	if rt == sym.Unknown {
 		panic(pathEnd{Reason: "solver-unknown", Detail: "branch"})
@@ -167,13 +358,10 @@ func (c *Ctx) Branch(cond *sym.Term) bool {
 	return true
 }
 
-// Choose returns an int in [lo,hi] as a chain of forks over a fresh symbolic variable.
+// Choose returns an int in [lo,hi]; every value is explored (a chain of free forks).
 func (c *Ctx) Choose(name string, lo, hi int) int {
-	v := c.B.Var(c.Fresh("choose_"+name), 16)
-	c.S.Declare(v)
-	c.AssumeUnchecked(c.B.And(c.B.Cmp(sym.OpULe, c.B.BV(uint64(lo), 16), v), c.B.Cmp(sym.OpULe, v, c.B.BV(uint64(hi), 16))))
 	for i := lo; i < hi; i++ {
-		if c.Branch(c.B.Eq(v, c.B.BV(uint64(i), 16))) {
+		if c.Fork() {
 			return i
 		}
 	}
@@ -395,6 +583,7 @@ func (e *Engine) runPath(h Harness, prefix []bool, solver *sym.Solver, budget Bu
 		globals: map[*ssa.Global]*Value{}, inited: map[*ssa.Package]bool{},
 		FS: NewVFS(), Funcs: map[*ssa.Function]int{}, Data: map[string]interface{}{},
 		lenInfo: map[*sym.Term]lenMeta{},
+		dom: map[*sym.Term]*[4]uint64{}, rel: map[*sym.Term]bool{}, tvars: map[*sym.Term][]*sym.Term{},
 	}
 	solver.Begin()
 	res = &PathResult{}
